@@ -7,13 +7,16 @@
      pull-none   a worker finds the queue empty and leaves its `while let` loop
      send        a worker computes `operation(&mut clone, &work)` and sends (index, work, result)
                  on the mpsc channel (one atomic step: the computation is thread-local)
+     die         `operation` panics on the query ([panics q = true]): the worker thread ends, its
+                 item is gone (nothing is sent; the main thread keeps its own Sender, so recv()
+                 never reports a closed channel)
      recv        the main thread takes the head of the channel and pushes it on `results`
                  (only while its `for _ in 0..work.len()` loop has iterations left)
      write       after the loop: results.sort_unstable(); one line per result is written
      join        handle.join() of every worker
    Not modelled: the OS scheduler (every interleaving of the atomic actions is a run of the system,
    which is what the theorems quantify over), thread creation (all workers exist from the start, a
-   superset of the real interleavings), I/O errors of the writer, a panic inside `operation`.
+   superset of the real interleavings), I/O errors of the writer.
    The answer of a worker clone is the Section variable [answer] (a function of the query alone:
    history independence of clones is property C16).  The result type T : ToString + Ord of the Rust
    is the Section variable R with [rshow] and an ARBITRARY comparison [rcmp]. *)
@@ -159,6 +162,7 @@ Fixpoint mq_lcmp (a b : mq_query) : comparison :=
 Section MultiQ.
   Variable R : Type.                       (* BigInt for count-queries, bool for sat *)
   Variable answer : mq_query -> R.         (* operation(&mut clone_of_ddnnf, query) *)
+  Variable panics : mq_query -> bool.      (* operation(..) panics on this query *)
   Variable rcmp : R -> R -> comparison.    (* <T as Ord>::cmp; nothing is assumed about it *)
   Variable rshow : R -> string.            (* T::to_string *)
 
@@ -201,6 +205,16 @@ Section MultiQ.
   Definition mq_render_single (W : list mq_item) : string :=
     mq_concat (map (fun it : mq_item => mq_line (snd it) (answer (snd it))) W).
 
+  (* queries_single_thread when `operation` may panic: the bytes written before the first
+     panicking query, and whether the loop panicked *)
+  Fixpoint mq_single (W : list mq_item) : string * bool :=
+    match W with
+    | [] => (EmptyString, false)
+    | it :: r =>
+      if panics (snd it) then (EmptyString, true)
+      else let '(o, p) := mq_single r in ((mq_line (snd it) (answer (snd it)) ++ o)%string, p)
+    end.
+
   Definition mq_result_of (it : mq_item) : res := (fst it, snd it, answer (snd it)).
   Definition mq_expected (W : list mq_item) : list res := map mq_result_of W.
 
@@ -229,6 +243,7 @@ Section MultiQ.
   | EPullNone (w : nat)
   | ESend (w i : nat)
   | ERecv (i : nat)
+  | EDie (w i : nat)
   | EWrite
   | EJoin.
 
@@ -256,8 +271,14 @@ Section MultiQ.
               (MQState [] (mq_upd ws w WExited) ch rs pc)
   | step_send : forall Q ws ch rs pc w i q,
       nth_error ws w = Some (WBusy i q) ->
+      panics q = false ->
       mq_step (MQState Q ws ch rs pc) (ESend w i)
               (MQState Q (mq_upd ws w WIdle) (ch ++ [(i, q, answer q)]) rs pc)
+  | step_die : forall Q ws ch rs pc w i q,
+      nth_error ws w = Some (WBusy i q) ->
+      panics q = true ->
+      mq_step (MQState Q ws ch rs pc) (EDie w i)
+              (MQState Q (mq_upd ws w WExited) ch rs pc)
   | step_recv : forall Q ws ch rs k i q r,
       mq_step (MQState Q ws ((i, q, r) :: ch) rs (PCollect (S k))) (ERecv i)
               (MQState Q ws ch (rs ++ [(i, q, r)]) (PCollect k))
@@ -287,8 +308,15 @@ Section MultiQ.
     | ESend w i =>
       match nth_error ws w with
       | Some (WBusy i' q) =>
-        if Nat.eqb i i' then Some (MQState Q (mq_upd ws w WIdle) (ch ++ [(i', q, answer q)]) rs pc)
+        if Nat.eqb i i' && negb (panics q)
+        then Some (MQState Q (mq_upd ws w WIdle) (ch ++ [(i', q, answer q)]) rs pc)
         else None
+      | _ => None
+      end
+    | EDie w i =>
+      match nth_error ws w with
+      | Some (WBusy i' q) =>
+        if Nat.eqb i i' && panics q then Some (MQState Q (mq_upd ws w WExited) ch rs pc) else None
       | _ => None
       end
     | ERecv i =>
@@ -345,7 +373,7 @@ Section MultiQ.
     | _, _ =>
       match mq_find_worker mq_is_busy (mq_workers s) 0 with
       | Some w => match nth_error (mq_workers s) w with
-                  | Some (WBusy i _) => Some (ESend w i)
+                  | Some (WBusy i q) => Some (if panics q then EDie w i else ESend w i)
                   | _ => None
                   end
       | None =>
@@ -365,7 +393,8 @@ Section MultiQ.
              end
     end.
 
-  (* number of events of any run from s (every step lowers it by exactly one) *)
+  (* bound on the number of events of any run from s (every step lowers it, all but `die` by
+     exactly one) *)
   Definition mq_wweight (x : mq_wst) : nat :=
     match x with WIdle => 1 | WBusy _ _ => 3 | WExited => 0 end.
   Definition mq_pcweight (p : mq_pc) : nat :=
